@@ -12,7 +12,7 @@ FUNCTIONS = [
     "batchie.policies.k_per_sample.KPerSamplePlatePolicy.filter_eligible_plates",
 ]
 BOUNDS = {
-    "quick": "screens with P=3 and P=4 plates (5-6 rows, duplicate conditions shared between candidate and batch plates), every per-plate observed pattern, every batch (subset of plate ids), every n_chunks in 1..P+1, symbolic real scores (ties reachable) plus a -inf score, every order of the chunk files, with and without the k-per-sample policy (k in 1..2)",
+    "quick": "screens with P=3 and P=4 plates (5-6 rows, duplicate conditions shared between candidate and batch plates), every per-plate observed pattern, every batch (subset of plate ids), every n_chunks in 1..P+1, symbolic real scores (ties reachable) plus a -inf score, every order of the chunk files, with and without the k-per-sample policy (k in 1..2); one screen of 300 plates (winner and batch among ids 255, 256, 298, 299)",
     "thorough": "P up to 6 (9 rows) for coverage, up to 5 for selection, n_chunks up to P+2, policy k up to 3 on 4-6 single-sample plates, and 24 generated screen structures of up to 5 plates",
 }
 ASSUMPTIONS = [
@@ -57,6 +57,7 @@ def configs(tier, seed):
     for P in ((3,) if q else (3, 4)):
         out.append(dict(name="cli P=%d" % P, h="cli", P=P))
     out.append(dict(name="holder", h="holder"))
+    out.append(dict(name="300 plates (ids past 255)", h="many", P=300, chunks=2 if q else 3))
     if not q:
         # generated screen structures (retro_common.generated_family) with at most 5 plates
         from .retro_common import family
@@ -76,6 +77,8 @@ N_GENERATED = 24
 
 
 def fixtures(cfg):
+    if cfg["h"] == "many":
+        return [dict(n_chunks=2, winner=0, sc0=0.3, ord0=1)]
     v = dict(n_chunks=2, pol_k=2)
     for i in range(7):
         v["obs%d" % i] = i == 0
@@ -237,6 +240,46 @@ def h_select(ctx, cfg):
     return order
 
 
+def h_many(ctx, cfg):
+    """plate ids beyond every narrow integer range that could be used in a chunk file: 300 single-row plates, the winner
+    and the batch among the highest ids; scores saved, loaded and combined in a solver-chosen order"""
+    np = ctx.np
+    core = ctx.mod("batchie.core")
+    sm = ctx.mod("batchie.scoring.main")
+    P = cfg["P"]
+    rows = [("s%d" % (i % 3), "a", float(i + 1), "b", 1.0, "p%04d" % i) for i in range(P)]
+    screen = concrete_screen(ctx, rows, observations=[0.5] * P, mask=[i < 2 for i in range(P)])
+    pid = dict(zip(screen.plate_mapping[0].tolist(), [int(x) for x in screen.plate_mapping[1].tolist()]))
+    ids = sorted(pid.values())
+    obs_ids = {pid["p%04d" % i] for i in range(2)}
+    batch = [ids[-2]]
+    n_chunks = int(ctx.int("n_chunks", 1, cfg["chunks"]))
+    # the minimum sits at one of the interesting ids (255, 256, the last one, an ordinary one); every other score is larger
+    cand_w = [i for i in ((ids[-1], 256, 255, 17) if cfg["chunks"] > 2 else (256, ids[-1])) if i not in obs_ids and i not in batch]
+    winner = cand_w[int(ctx.int("winner", 0, len(cand_w) - 1))]
+    wscore = ctx.real("sc0")
+    score_of = lambda k: wscore if k == winner else wscore + 1.0 + 0.001 * k
+    log = []
+    scorer = _recording_scorer(ctx, core, log, score_of)
+    files = []
+    for c in range(n_chunks):
+        h = sm.score_chunk(scorer, None, screen, None, rng=ctx.rng("R"), n_chunks=n_chunks, chunk_index=c, batch_plate_ids=list(batch))
+        fn = ctx.tmp("scores_%d.h5" % c)
+        h.save_h5(fn)
+        files.append(fn)
+    want = sorted(i for i in ids if i not in obs_ids and i not in batch)
+    ctx.prove(sorted(k for k, _ in log) == want, "plates scored across all chunk indices = unobserved plates not in the batch, each exactly once",
+              key="coverage of candidate plates")
+    order = _order(ctx, n_chunks)
+    combined = sm.ChunkedScoresHolder.concat([sm.ChunkedScoresHolder.load_h5(files[c]) for c in order])
+    ctx.prove(sorted(int(x) for x in combined.plate_ids.tolist()) == want, "combined holder has one entry per scored plate, ids intact",
+              key="plate ids changed by save/load/combine")
+    best = sm.select_next_plate(scores=combined, screen=screen, policy=None, batch_plate_ids=list(batch), rng=ctx.rng("R2"))
+    ctx.prove(best is not None and ctx.is_true(best.plate_id == winner), "the plate with the minimum score is returned (ids past 255)",
+              key="returned plate is not a minimum")
+    return winner
+
+
 def h_cli(ctx, cfg):
     """the two command-line steps with the shipped SizeScorer: selected_plate file holds the id or -1"""
     np = ctx.np
@@ -309,4 +352,4 @@ def h_holder(ctx, cfg):
 
 
 def run(ctx, cfg):
-    return {"coverage": h_coverage, "select": h_select, "cli": h_cli, "holder": h_holder}[cfg["h"]](ctx, cfg)
+    return {"coverage": h_coverage, "select": h_select, "cli": h_cli, "holder": h_holder, "many": h_many}[cfg["h"]](ctx, cfg)
